@@ -271,7 +271,40 @@ fn gen_out_of_range(g: &mut Gen) -> Item {
     Item::Int(*g.pick(&[i64::MAX as i128 + 1, u64::MAX as i128, i64::MIN as i128 - 1, -(1i128 << 64), (1i128 << 63) + 12345]))
 }
 
-const GOOD_CT: &[&str] = &["a/b", "text/plain", "application/cose; cose-type=\"cose-sign1\"", "x/y z", "é/ü", "/", "a/", "/b", "a /b"];
+const GOOD_CT: &[&str] = &[
+    "a/b", "text/plain", "x/y z", "é/ü", "/", "a/", "/b", "a /b",
+    // the media types RFC 8152 section 16.9 / RFC 9052 section 2 register for COSE objects
+    "application/cose; cose-type=\"cose-sign\"", "application/cose; cose-type=\"cose-sign1\"",
+    "application/cose; cose-type=\"cose-encrypt\"", "application/cose; cose-type=\"cose-encrypt0\"",
+    "application/cose; cose-type=\"cose-mac\"", "application/cose; cose-type=\"cose-mac0\"",
+    "application/cose-key", "application/cose-key-set", "application/cwt",
+];
+
+/// Registered *names* (IANA COSE registries) that a sender confusing names and numbers would put
+/// where the registered integer belongs.
+pub const REG_VALUE_NAMES: &[&str] = &[
+    "P-256", "P-384", "P-521", "X25519", "X448", "Ed25519", "Ed448", "secp256k1", "OKP", "EC2", "RSA", "Symmetric", "ES256", "EdDSA",
+    "A128KW", "A192KW", "A256KW", "A128GCM", "HS256", "direct", "sign", "verify", "encrypt", "decrypt",
+];
+
+/// Value of a key-type-specific parameter or other uninterpreted slot: any value, with registered
+/// numbers, registered names and coordinate-sized byte strings over-represented.
+pub fn gen_param_value(g: &mut Gen) -> Item {
+    match g.weighted(&[6, 1, 1, 1]) {
+        0 => gen_value(g, 2, true),
+        1 => Item::Text((*g.pick(REG_VALUE_NAMES)).to_string()),
+        2 => Item::Int(g.range_i64(-8, 8) as i128),
+        _ => {
+            let n = *g.pick(&[31usize, 32, 33, 48, 49, 66, 67]);
+            let mut b = g.bytes(n);
+            if g.bool() {
+                b[0] = 0;
+                b[1] |= 0x80;
+            }
+            Item::Bytes(b)
+        }
+    }
+}
 
 // ---------------------------------------------------------------------------------------------
 // headers
@@ -507,7 +540,7 @@ pub fn gen_header(g: &mut Gen, f: &mut Faults, depth: usize) -> Item {
         entries.push((Item::Int(7), gen_counter_sig(g, f, depth - 1)));
     }
     // extras (rarely: dozens of them, with labels of mixed encoded lengths)
-    let many = g.ratio(1, 40);
+    let many = g.ratio(1, 25);
     let nextra = if many { 20 + g.below(50) } else { g.weighted(&[4, 3, 2, 1, 1]) };
     for i in 0..nextra {
         let l = if many { gen_spread_label(g, i) } else { gen_extra_label(g, &[1, 2, 3, 4, 5, 6, 7]) };
@@ -520,7 +553,7 @@ pub fn gen_header(g: &mut Gen, f: &mut Faults, depth: usize) -> Item {
         let at = g.below(entries.len() + 1);
         entries.insert(at, (gen_non_label(g), gen_value(g, 1, false)));
     }
-    if !entries.is_empty() && f.take(g, "duplicate-label") {
+    if !entries.is_empty() && (f.take(g, "duplicate-label") || (many && f.take_odds(g, "duplicate-label", 2))) {
         let src = g.below(entries.len());
         let k = entries[src].0.clone();
         let v = if g.bool() { entries[src].1.clone() } else { gen_value(g, 1, false) };
@@ -538,7 +571,13 @@ pub fn gen_header(g: &mut Gen, f: &mut Faults, depth: usize) -> Item {
 /// A protected-header slot.
 pub fn gen_protected(g: &mut Gen, f: &mut Faults, depth: usize) -> Item {
     if f.take(g, "protected-bad") {
-        return match g.below(7) {
+        return match g.below(9) {
+            // the content is a valid header map wrapped once more (bstr, tag 24, array, hex text)
+            7 | 8 => {
+                let inner = gen_header(g, &mut Faults::none(), 0);
+                let inner = if matches!(&inner, Item::Map(m) if m.is_empty()) && g.bool() { Item::Map(vec![(Item::Int(1), Item::Int(-7))]) } else { inner };
+                Wrapped::new(gen_embedded(g, inner))
+            }
             0 => gen_wrong_kind(g, &["bstr"]),
             1 => {
                 // map + trailing bytes
@@ -615,8 +654,31 @@ fn gen_nested(g: &mut Gen, kind: Kind, f: &mut Faults, depth: usize) -> Item {
         let n = 12 + g.below(40);
         return Item::Array((0..n).map(|_| gen_msg(g, kind, &mut Faults::none(), 0)).collect());
     }
-    let n = if depth == 0 { g.weighted(&[1, 6, 2]) } else { g.weighted(&[1, 5, 3, 1]) };
-    Item::Array((0..n).map(|_| gen_msg(g, kind, f, depth.saturating_sub(1))).collect())
+    let n = if depth == 0 { g.weighted(&[1, 6, 2, 1, 1]) } else { g.weighted(&[1, 5, 3, 2, 1]) };
+    let mut v: Vec<Item> = (0..n).map(|_| gen_msg(g, kind, f, depth.saturating_sub(1))).collect();
+    // correlation between siblings: a later element carries the protected content (or is a whole
+    // copy) of an earlier one — patterns A,A / A,B,B / A,B,A ...
+    if n >= 2 && g.ratio(1, 4) {
+        for k in 1..n {
+            if g.bool() {
+                let from = g.below(k);
+                if g.ratio(1, 4) {
+                    v[k] = v[from].clone();
+                } else {
+                    let p = match &v[from] {
+                        Item::Array(a) if !a.is_empty() => Some(a[0].clone()),
+                        _ => None,
+                    };
+                    if let (Some(p), Item::Array(a)) = (p, &mut v[k]) {
+                        if !a.is_empty() {
+                            a[0] = p;
+                        }
+                    }
+                }
+            }
+        }
+    }
+    Item::Array(v)
 }
 
 /// Slots of a structurally valid message array of `kind` (faults may still be planted inside
@@ -787,7 +849,7 @@ pub fn gen_key(g: &mut Gen, f: &mut Faults) -> Item {
     if g.ratio(1, 3) {
         entries.push((Item::Int(5), gen_nonempty_bstr_field(g, f, "base-iv-bad")));
     }
-    let many = g.ratio(1, 40);
+    let many = g.ratio(1, 25);
     let nextra = if many { 20 + g.below(50) } else { g.weighted(&[2, 3, 3, 2, 1]) };
     for i in 0..nextra {
         let l = if many {
@@ -800,13 +862,13 @@ pub fn gen_key(g: &mut Gen, f: &mut Faults) -> Item {
         if entries.iter().any(|(k, _)| k == &l) {
             continue;
         }
-        entries.push((l, if many { Item::Int(i as i128) } else { gen_value(g, 2, true) }));
+        entries.push((l, if many { Item::Int(i as i128) } else { gen_param_value(g) }));
     }
     if f.take(g, "non-label-key") {
         let at = g.below(entries.len() + 1);
         entries.insert(at, (gen_non_label(g), gen_value(g, 1, false)));
     }
-    if !entries.is_empty() && f.take(g, "duplicate-label") {
+    if !entries.is_empty() && (f.take(g, "duplicate-label") || (many && f.take_odds(g, "duplicate-label", 2))) {
         let src = g.below(entries.len());
         let k = entries[src].0.clone();
         let at = g.below(entries.len() + 1);
@@ -871,7 +933,7 @@ pub fn gen_claims(g: &mut Gen, f: &mut Faults) -> Item {
         let v = if f.take(g, "cti-bad") { gen_wrong_kind(g, &["bstr"]) } else { Item::Bytes(g.small_bytes()) };
         entries.push((Item::Int(7), v));
     }
-    let many = g.ratio(1, 40);
+    let many = g.ratio(1, 25);
     let nextra = if many { 20 + g.below(50) } else { g.weighted(&[3, 3, 2, 1]) };
     for i in 0..nextra {
         let l = if many {
@@ -894,7 +956,7 @@ pub fn gen_claims(g: &mut Gen, f: &mut Faults) -> Item {
         }
         entries.push((l, gen_value(g, 2, true)));
     }
-    if !entries.is_empty() && f.take(g, "duplicate-label") {
+    if !entries.is_empty() && (f.take(g, "duplicate-label") || (many && f.take_odds(g, "duplicate-label", 2))) {
         let src = g.below(entries.len());
         let k = entries[src].0.clone();
         let at = g.below(entries.len() + 1);
